@@ -597,12 +597,8 @@ func copyBytesSink(p *core.Prog, fn *ssa.Function, call *ssa.Call) (string, stri
 									if !ok {
 										continue
 									}
-									for _, r3 := range *ap.Referrers() {
-										if s3, ok := r3.(*ssa.Store); ok {
-											if fa3, ok := s3.Addr.(*ssa.FieldAddr); ok {
-												bind = fieldBinding(p, p.X(fa3)) + "[]"
-											}
-										}
+									if fa3 := storedField(ap); fa3 != nil {
+										bind = fieldBinding(p, p.X(fa3)) + "[]"
 									}
 								}
 							}
@@ -638,11 +634,15 @@ func keysOf(m map[string]bool) []string {
 func c13Pointers(p *core.Prog, r *core.Run, nl *ssa.Function) {
 	// the pointer test: (*s)[0] & 0xc0 == 0xc0
 	var test *ssa.BasicBlock
+	ptrSucc := 0 // which successor of the test is taken for a pointer
 	for _, b := range nl.Blocks {
 		if iff, ok := b.Instrs[len(b.Instrs)-1].(*ssa.If); ok {
 			f := p.FactOf(core.Guard{Cond: iff.Cond, Pol: true, If: iff})
-			if f.Op == "==" && f.R != nil && f.R.Name == "192" && f.L.Op == "bin" && f.L.Name == "&" && f.L.Args[1].Name == "192" {
+			if (f.Op == "==" || f.Op == "!=") && f.R != nil && f.R.Name == "192" && f.L.Op == "bin" && f.L.Name == "&" && f.L.Args[1].Name == "192" {
 				test = b
+				if f.Op == "!=" {
+					ptrSucc = 1
+				}
 			}
 		}
 	}
@@ -673,8 +673,8 @@ func c13Pointers(p *core.Prog, r *core.Run, nl *ssa.Function) {
 			}
 		}
 	}
-	walk(test.Succs[0])
-	if test.Succs[0] == test {
+	walk(test.Succs[ptrSucc])
+	if test.Succs[ptrSucc] == test {
 		cyc = true
 	}
 	r.Check("C13.PTR", "pointer-chain", cyc && label != nil, p.InstrPos(test.Instrs[len(test.Instrs)-1]), "after following a pointer the decoder tests for a pointer again before reading a label, so a pointer to a pointer (allowed by RFC 1035 4.1.4) is followed")
@@ -804,11 +804,18 @@ func c13Padding(p *core.Prog, r *core.Run, pad, mb *ssa.Function, rbS string) {
 }
 
 func c13RCode(p *core.Prog, r *core.Run, rc *ssa.Function) {
-	var e *core.Expr
+	// the result: one expression with alternatives, or one return per alternative
+	e := &core.Expr{Op: "phi"}
+	seenAlt := map[string]bool{}
 	for _, ret := range core.Returns(rc) {
-		e = p.X(ret.Results[0])
+		for _, a := range p.X(ret.Results[0]).Alts() {
+			if !seenAlt[a.String()] {
+				seenAlt[a.String()] = true
+				e.Args = append(e.Args, a)
+			}
+		}
 	}
-	if e == nil {
+	if len(e.Args) == 0 {
 		r.Check("C13.RC", "expression", false, p.Pos(rc.Pos()), "no result expression")
 		return
 	}
